@@ -72,7 +72,15 @@ impl Cors {
             }
             Some(origin) => match Uri::try_from(origin.as_bytes()) {
                 Ok(origin) => {
-                    let path = request.uri().path();
+                    // The rules apply to the path the client requested, also after a Prime
+                    // extension (`/dir/` -> `/dir/index.html`) has rewritten the URI: else,
+                    // the `access-control-allow-origin` header and the preflight response
+                    // could disagree with the decision to refuse the request.
+                    let path = request
+                        .extensions()
+                        .get::<extensions::RequestedUri>()
+                        .map_or(request.uri(), |requested| &requested.0)
+                        .path();
                     let check = |path: &str| {
                         self.check_origin(&origin, path)
                             .filter(|allowed| allowed.0.allowed(request.method()))
